@@ -113,6 +113,18 @@ package roles
 //@   assert [C18:reads-the-configured-allow-list-role] $key.Name == v.name && $key.Namespace == ""
 //@   update roleRead = err == nil
 //@ ensures [C18:nothing-is-allowed-without-the-allow-list-role] err == nil ==> roleRead
+// the tree that answers is built in this call, from the rules of the role read in this call: an
+// answer from a tree kept from an earlier call would outlive a narrowing of the allow list
+//@ let $role = arg 3 (client.Reader).Get
+//@ ghost expanded int = 0
+//@ site roles.Expand(_, $rules...) as expand
+//@   assert [C18:allow-tree-built-from-the-role-just-read] expanded == 0 ==> (roleRead && $rules == as($role, *rbacv1.ClusterRole).Rules)
+//@   assert [C18:requests-expanded-are-the-callers] expanded == 1 ==> $rules == requests
+//@   update expanded = expanded + 1
+//@ site (*roles.node).Allow($n, $p)
+//@   assert [C18:allow-tree-is-this-calls-own] callerfresh($n)
+//@ site (*roles.node).Allowed($n, $p)
+//@   assert [C18:answer-comes-from-this-calls-own-tree] callerfresh($n) && expanded == 2
 
 // The key of a rule in the allow tree: a non-resource URL is one key as a whole (Kubernetes
 // matches such URLs literally), followed by the verb; a resource rule is keyed by group,
